@@ -69,6 +69,36 @@ Proof.
   - split; [discriminate|]. intros [-> _]. rewrite lex_cmp_refl in E. discriminate.
 Qed.
 
+Lemma key_order_antisym k1 t1 k2 t2 : key_order k2 t2 k1 t1 = CompOpp (key_order k1 t1 k2 t2).
+Proof.
+  unfold key_order. rewrite (lex_cmp_antisym k1 k2).
+  destruct (lex_cmp k1 k2); cbn; try reflexivity. apply N.compare_antisym.
+Qed.
+
+Lemma key_order_trans_lt k1 t1 k2 t2 k3 t3 :
+  key_order k1 t1 k2 t2 = Lt -> key_order k2 t2 k3 t3 = Lt -> key_order k1 t1 k3 t3 = Lt.
+Proof.
+  unfold key_order.
+  destruct (lex_cmp k1 k2) eqn:E1; try discriminate;
+  destruct (lex_cmp k2 k3) eqn:E2; try discriminate; intros H1 H2.
+  - apply lex_cmp_eq in E1, E2. subst. rewrite lex_cmp_refl.
+    rewrite N.compare_lt_iff in *. lia.
+  - apply lex_cmp_eq in E1. subst. now rewrite E2.
+  - apply lex_cmp_eq in E2. subst. now rewrite E1.
+  - now rewrite (lex_cmp_trans_lt _ _ _ E1 E2).
+Qed.
+
+(* the encoding is injective: distinct (key, version) pairs never share an internal key *)
+Lemma key_with_ts_inj k1 t1 k2 t2 : t1 < two64 -> t2 < two64 ->
+  key_with_ts k1 t1 = key_with_ts k2 t2 -> k1 = k2 /\ t1 = t2.
+Proof.
+  intros H1 H2 E.
+  pose proof (compare_keys_spec k1 t1 k2 t2 H1 H2) as C. rewrite E in C.
+  pose proof (compare_keys_spec k2 t2 k2 t2 H2 H2) as C2. rewrite C2 in C.
+  injection C as C. apply (proj1 (key_order_eq k1 t1 k2 t2)). rewrite <- C.
+  apply key_order_eq. split; reflexivity.
+Qed.
+
 (* ---- header ---- *)
 Lemma header_roundtrip h rest :
   h_klen h < two32 -> h_vlen h < two32 -> h_expires h < two64 ->
